@@ -387,6 +387,30 @@ def compare_model(ctx, items):
                     ctx.mismatch('write_assert', case, {'model_flags': flags, 'impl_exception': exc})
 
 
+def compare_rf_decode(ctx, items):
+    """model of rf_from_lib_data's time axis (decode_rf_tlast / decode_rf_shape_dur) against the decoded RF events"""
+    from common import Toks, qtok, ztok
+    lines, refs = [], []
+    for case, it in items:
+        for d in it['ds']:
+            r = d['rf']
+            if r is None or not r.get('time_shape'):
+                continue
+            kind, v = r['time_shape']
+            lines.append('timing.rfdecode %s %s' % (qtok(it['sys']['rf']), ('1 ' + ztok(v)) if kind == 'regular' else ('0 ' + qtok(v))))
+            refs.append((case, r))
+    if not lines:
+        return
+    for (case, r), o in zip(refs, ctx.model(lines)):
+        t = Toks(o)
+        tl, sd = t.q(), t.q()
+        ctx.count('corr.rf_decode.' + r['time_shape'][0])
+        if abs(tl - r['t_last']) > Fraction(1, 10 ** 12) or abs(sd - r['shape_dur']) > Fraction(1, 10 ** 12):
+            ctx.mismatch('rf_decode', case, {'model': [float(tl), float(sd)], 'impl': [float(r['t_last']), float(r['shape_dur'])]})
+        if r['t_last'] > r['shape_dur'] + tg.EPS:
+            ctx.fail('C10/decoded-rf-tlast-beyond-shape_dur', case, {'t_last': float(r['t_last']), 'shape_dur': float(r['shape_dur'])})
+
+
 def corpus():
     s = {'family': 'siemens', 'block': 1e-5, 'rf': 1e-6, 'grad': 1e-5, 'adc': 1e-7, 'rf_dead': 1e-4, 'rf_ring': 3e-5, 'adc_dead': 2e-5}
     z = dict(s, rf_dead=0.0, rf_ring=0.0, adc_dead=0.0)
@@ -452,9 +476,11 @@ def run(ctx):
             pending.append((case, it))
         if len(pending) >= 200:
             compare_model(ctx, pending)
+            compare_rf_decode(ctx, pending)
             pending = []
     if pending and ctx.model_available:
         compare_model(ctx, pending)
+        compare_rf_decode(ctx, pending)
 
 
 def replay(ctx, case):
